@@ -33,18 +33,28 @@ KindOf(ln, g) ==
   ELSE IF DocEq(g.after, g.before) THEN "no-effect"
   ELSE IF Changed(g.before, g.after, ln.m) THEN "frame" ELSE "effect"
 
-Devs(ln) == FlatMap(LAMBDA g : IF Allowed(g.before, ln.m, [r |-> g.r, after |-> g.after]) THEN <<>>
-                               ELSE IF g.r # "panic" /\ ImplAllowed(g.before, ln.m, [r |-> g.r, after |-> g.after])
-                               THEN << [i |-> cur, as |-> g.as, op |-> ln.m.op, kind |-> "as-implemented", m |-> g.msg,
+\* Allowance (round 7): the statement names simple and gen data.  Documents held in typed Go containers (typed maps with a named key
+\* type, typed slices, Go arrays: flavours nmap, nmapi, tslice, array) cannot hold every value and a Go array held in an interface cannot
+\* be changed in place, so for the calls that STORE a value (Set, SetOne, Modify, ModifyOne) an error that leaves the document as it was is
+\* accepted there; removals get no allowance, and a success must be the store's outcome in every flavour.
+TypedFl == {"nmap", "nmapi", "tslice", "array"}
+TypedErr(g, m) == g.r = "err" /\ m.op \in {"Set", "SetOne", "Modify", "ModifyOne"} /\ DocEq(g.after, g.before)
+                  /\ \A q \in 1..Len(g.as) : g.as[q] \in TypedFl
+DevsM(ln, m0) == FlatMap(LAMBDA g : LET m == ResM(m0, g.before)
+                                        lm == [ln EXCEPT !.m = m] IN
+                               IF Allowed(g.before, m, [r |-> g.r, after |-> g.after]) \/ TypedErr(g, m) THEN <<>>
+                               ELSE IF g.r # "panic" /\ ImplAllowed(g.before, m, [r |-> g.r, after |-> g.after])
+                               THEN << [i |-> cur, as |-> g.as, op |-> m.op, kind |-> "as-implemented", m |-> g.msg,
                                         loc |-> [frag |-> "slice", pos |-> "inclusive-end-reading", cont |-> "-", pre |-> "-", bound |-> <<"-">>]] >>
-                               ELSE << [i |-> cur, as |-> g.as, op |-> ln.m.op, kind |-> KindOf(ln, g), m |-> g.msg,
-                                        loc |-> Locus(ln.m.path, g.before, ln.fx)] >>, ln.o)
+                               ELSE << [i |-> cur, as |-> g.as, op |-> m.op, kind |-> KindOf(lm, g), m |-> g.msg,
+                                        loc |-> Locus(m.path, g.before, ln.fx)] >>, ln.o)
+Devs(ln) == DevsM(ln, ln.m)
 \* the simple flavour threads doc
 Simple(ln) == LET gs == SelectSeq(ln.o, LAMBDA g : \E q \in 1..Len(g.as) : g.as[q] = "simple") IN gs[1]
 \* (a chunk of the trace may start in the middle of a behaviour: only checked when the previous line is in this chunk)
 Discont(ln) == IF ln.k > 1 /\ cur > 1 /\ Lines[cur - 1].b = ln.b /\ ~DocEq(Simple(ln).before, doc)
                THEN << [i |-> cur, as |-> <<"simple">>, op |-> ln.m.op, kind |-> "trace-discontinuity", m |-> "",
-                        loc |-> Locus(ln.m.path, doc, ln.fx)] >> ELSE <<>>
+                        loc |-> Locus(ResM(ln.m, doc).path, doc, ln.fx)] >> ELSE <<>>
 
 ApplyMutation(op) ==
   /\ cur <= NLines /\ Lines[cur].m.op = op
@@ -52,7 +62,7 @@ ApplyMutation(op) ==
          devs == Devs(ln) \o Discont(ln) IN
      /\ (IF devs = <<>> \/ Len(TLCGet(1)) >= MaxBad THEN TRUE ELSE TLCSet(1, TLCGet(1) \o devs))
      /\ (IF devs = <<>> THEN TRUE ELSE TLCSet(3, TLCGet(3) + Len(devs)))
-     /\ TLCSet(4, TLCGet(4) \cup {ToString(<<op, Locus(ln.m.path, Simple(ln).before, ln.fx)>>)})
+     /\ TLCSet(4, TLCGet(4) \cup {ToString(<<op, Locus(ResM(ln.m, Simple(ln).before).path, Simple(ln).before, ln.fx)>>)})
      /\ TLCSet(2, cur)
      /\ doc' = Simple(ln).after
      /\ doc0' = IF ln.k = 1 THEN Simple(ln).before ELSE doc0
